@@ -23,7 +23,14 @@ from specs.stubs import Recorder, ItemsStub, StringStub, ContextStub, CacheMapSt
 
 PathT = opaque_sort('FsPath')
 PT = ('opaque', 'FsPath')
-MT = z3.Function('mtime_ns', PathT, T.Int)
+_MT_RAW = z3.Function('mtime_ns', PathT, T.Int)
+
+
+def MT(p):
+    """modification time of an abstract path in ns: never negative; 0 is what the lenient lookup
+    (getmtime_ns(strict=False)) reports for a file that does not exist"""
+    r = _MT_RAW(p)
+    return z3.If(r >= 0, r, -r)
 CACHE_FILE = z3.Const('the_find_cache_file', PathT)
 K_IN, K_OUT = z3.Const('k_input', T.Int), z3.Const('k_output', T.Int)
 NFILTERS = 2
@@ -99,6 +106,8 @@ class FindCheckCache(Contract):
             'cache_not_newer_than_the_build_file': z3.Not(MT(CACHE_FILE) > MT(a.outputs[0])),
             'no_input_newer_than_any_output': z3.Implies(z3.And(K_IN >= 0, K_IN < n_in, K_OUT >= 0, K_OUT < n_out),
                                                          MT(a.inputs[K_IN]) <= MT(a.outputs[K_OUT])),
+            # (a modification time of 0 is what the lenient lookup reports for a file that does not exist)
+            'no_input_is_missing': z3.Implies(z3.And(K_IN >= 0, K_IN < n_in), MT(a.inputs[K_IN]) != 0),
         }
         for i in range(NFILTERS):
             f, e, x, d = a.fresh[i]
